@@ -291,8 +291,13 @@ class PaxosNode(Entity):
         self._phase1_responses[ballot_number].append(response)
         self._promises_received += 1
 
-        # Check if we have a quorum
-        if len(self._phase1_responses[ballot_number]) >= self.quorum_size:
+        # Start Phase 2 exactly once per ballot, when the quorum is first reached
+        # (a late promise must not re-run it with a different value), and never
+        # for a ballot that a retry has already abandoned.
+        if (
+            len(self._phase1_responses[ballot_number]) == self.quorum_size
+            and ballot_number in self._proposed_values
+        ):
             return self._start_phase2(ballot_number)
 
         return []
@@ -441,6 +446,10 @@ class PaxosNode(Entity):
         if ballot_number not in self._phase2_responses:
             self._phase2_responses[ballot_number] = 0
         self._phase2_responses[ballot_number] += 1
+
+        if ballot_number not in self._proposed_values:
+            # Ballot abandoned by a retry: its value moved to the new ballot
+            return []
 
         if self._phase2_responses[ballot_number] >= self.quorum_size and not self._decided:
             value = self._proposed_values.get(ballot_number)
